@@ -902,6 +902,8 @@ func visited(k interface{}) bool { return true }
 func ncalls() int { return 0 }
 func callarg[T any](k, i int) (r T) { return }
 func callres[T any](k, i int) (r T) { return }
+func lastres[T any](i int) (r T)    { return }
+func lastarg[T any](i int) (r T)    { return }
 func typeid[T any]() int { return 0 }
 func freshid(i int) bool { return true }
 func allocmark() int { return 0 }
